@@ -90,11 +90,12 @@ fn select_guarded_int_opcode(op: BinaryOp) -> OpCode {
         BinaryOp::Ge => OpCode::GeIIG,
         BinaryOp::Eq => OpCode::EqIIG,
         BinaryOp::Ne => OpCode::NeIIG,
-        BinaryOp::Shl => OpCode::ShlII,
-        BinaryOp::Shr => OpCode::ShrII,
-        BinaryOp::BitAnd => OpCode::AndII,
-        BinaryOp::BitOr => OpCode::OrII,
-        BinaryOp::BitXor => OpCode::XorII,
+        // no guarded shift/bitwise opcodes exist: the generic ones check both tags
+        BinaryOp::Shl => OpCode::Shl,
+        BinaryOp::Shr => OpCode::Shr,
+        BinaryOp::BitAnd => OpCode::BitAnd,
+        BinaryOp::BitOr => OpCode::BitOr,
+        BinaryOp::BitXor => OpCode::BitXor,
     }
 }
 
